@@ -24,20 +24,39 @@ func TestVerifC07Collection(t *testing.T) {
 		return verifc07.Gen(r, verifh.Scale(80, 2000), "collection.Cache.Take")
 	})
 	verifc07.WriteTrace(t, secs, func(cfg verifh.Cfg) verifc07.Target {
-		cache, err := NewCache(time.Hour)
-		if err != nil {
-			t.Fatal(err)
-		}
-		if sfd := cfg.Str("sfd", "-"); sfd != "-" {
-			// delay between Take's unlocked lookup and the flight (and after it): see verifc07.SlowSF
-			cache.barrier = verifc07.NewSlowSF(sfd, cache.barrier.Do, cache.barrier.DoEx)
+		// objs caches (key n of cache i arrives as 100*i+n, used as key string n on cache i); opt: the constructor's
+		// options (1: WithLimit far above the number of keys — the lru bookkeeping runs inside doGet / Set, nothing is
+		// evicted; 2: WithName + WithLimit)
+		n := cfg.Int("objs", 1)
+		var caches []*Cache
+		for i := 0; i < n; i++ {
+			var opts []CacheOption
+			switch cfg.Int("opt", 0) {
+			case 1:
+				opts = append(opts, WithLimit(1000))
+			case 2:
+				opts = append(opts, WithName(fmt.Sprintf("c07-%d", i)), WithLimit(500))
+			}
+			cache, err := NewCache(time.Hour, opts...)
+			if err != nil {
+				t.Fatal(err)
+			}
+			if sfd := cfg.Str("sfd", "-"); sfd != "-" {
+				// delay between Take's lookup in front of the flight and the flight (and after it): see verifc07.SlowSF
+				cache.barrier = verifc07.NewSlowSF(sfd, cache.barrier.Do, cache.barrier.DoEx)
+			}
+			caches = append(caches, cache)
 		}
 		return verifc07.Target{
 			Invoke: func(c *verifc07.Call, fn func() (any, error)) (any, string, error) {
-				v, err := cache.Take(fmt.Sprint(c.Key()), fn)
+				v, err := caches[(c.Key()/100)%n].Take(fmt.Sprint(c.Key()%100), fn)
 				return v, "-", err
 			},
-			Done: func() { cache.timingWheel.Stop() },
+			Done: func() {
+				for _, cache := range caches {
+					cache.timingWheel.Stop()
+				}
+			},
 		}
 	})
 }
